@@ -37,6 +37,7 @@ import (
 
 	"verifharness/internal/core"
 	"verifharness/internal/demonref"
+	"verifharness/internal/pick"
 	"verifharness/internal/tsx"
 )
 
@@ -509,9 +510,9 @@ func judge(c Cfg, r Req) verdict {
 		case got == want:
 		case strings.EqualFold(got, want):
 			grey = append(grey, "header-value-case") // the code documents a case-insensitive comparison
-		case strings.HasPrefix(want, got) && strings.HasPrefix(want[len(got):], ": "):
-			bad = append(bad, "header-truncated-at-colon-space")
-		case strings.HasPrefix(want, got):
+		case len(got) < len(want) && strings.EqualFold(want[:len(got)], got) && strings.HasPrefix(want[len(got):], ": "):
+			bad = append(bad, "header-truncated-at-colon-space") // exactly or up to letter case
+		case len(got) < len(want) && strings.EqualFold(want[:len(got)], got):
 			bad = append(bad, "header-truncated")
 		default:
 			bad = append(bad, "header-value")
@@ -669,38 +670,7 @@ func buildRequest(r Req, agentID uint32) *http.Request {
 func check(c Case) *core.Violation {
 	var all []*core.Violation
 	run(c, func(v *core.Violation) { all = append(all, v) })
-	if len(all) == 0 {
-		return nil
-	}
-	known := knownSigs()
-	for _, v := range all {
-		if !known[v.Sig] {
-			return v
-		}
-	}
-	return all[0]
-}
-
-var (
-	knownOnce sync.Once
-	knownSet  map[string]bool
-)
-
-func knownSigs() map[string]bool {
-	knownOnce.Do(func() {
-		knownSet = map[string]bool{}
-		b, err := os.ReadFile(os.Getenv("VERIF_KNOWN"))
-		if err != nil {
-			return
-		}
-		for _, ln := range strings.Split(string(b), "\n") {
-			var k struct{ Property, Signature, Status string }
-			if json.Unmarshal([]byte(strings.TrimSpace(ln)), &k) == nil && k.Property == "C12" && k.Status == "open" {
-				knownSet[k.Signature] = true
-			}
-		}
-	})
-	return knownSet
+	return pick.First("C12", all)
 }
 
 func run(c Case, report func(*core.Violation)) {
@@ -726,34 +696,41 @@ func run(c Case, report func(*core.Violation)) {
 		where := fmt.Sprintf("request %d (%s %q ua=%v/%q headers=%v peer=%s mut=%q) against cfg %+v", i, r.Method, r.URI, r.HasUA, r.UA, r.Headers, r.Peer, r.Mut, c.Cfg)
 
 		if admitted && v.MustReject {
-			return core.V("admit|"+strings.Join(v.Reasons, "+"), "%s reached the agent protocol although it violates: %v", where, v.Reasons)
+			report(core.V("admit|"+strings.Join(v.Reasons, "+"), "%s reached the agent protocol although it violates: %v", where, v.Reasons))
+			continue
 		}
 		if !admitted && v.MustAdmit {
-			return core.V("reject|satisfying|"+feat, "%s satisfies every configured constraint (canonical Demon form) but was not admitted: status %d, events %v", where, w.Code, ev)
+			report(core.V("reject|satisfying|"+feat, "%s satisfies every configured constraint (canonical Demon form) but was not admitted: status %d, events %v", where, w.Code, ev))
+			continue
 		}
 		if !admitted {
 			if w.Code != http.StatusNotFound {
-				return core.V("reject|status-not-404|"+r.Method, "%s was not admitted but answered %d instead of the decoy 404", where, w.Code)
+				report(core.V("reject|status-not-404|"+r.Method, "%s was not admitted but answered %d instead of the decoy 404", where, w.Code))
+				continue
 			}
 			if len(ev) > 0 || len(newSessions) > 0 {
-				return core.V("reject|side-effect", "%s got the 404 but changed state: events %v", where, ev)
+				report(core.V("reject|side-effect", "%s got the 404 but changed state: events %v", where, ev))
+				continue
 			}
 			continue
 		}
 
 		// ---- admitted
 		if len(newSessions) != 1 || newSessions[0] == nil {
-			return core.V("admit|session-count", "%s: %d sessions created", where, len(newSessions))
+			report(core.V("admit|session-count", "%s: %d sessions created", where, len(newSessions)))
+			continue
 		}
 		s := newSessions[0]
 		if s.NameID != fmt.Sprintf("%08x", agentID) {
-			return core.V("admit|wrong-agent", "%s: session %s created, sent id %08x", where, s.NameID, agentID)
+			report(core.V("admit|wrong-agent", "%s: session %s created, sent id %08x", where, s.NameID, agentID))
+			continue
 		}
 		var idLE [4]byte
 		binary.LittleEndian.PutUint32(idLE[:], agentID)
 		wantBody := demonref.XCrypt(idLE[:], key, iv) // Demon: TransportInit decrypts the answer and compares it with its id
 		if w.Code != http.StatusOK || !bytes.Equal(w.Body.Bytes(), wantBody) {
-			return core.V("admit|bad-reply", "%s: admitted but answered %d %x, want 200 %x", where, w.Code, w.Body.Bytes(), wantBody)
+			report(core.V("admit|bad-reply", "%s: admitted but answered %d %x, want 200 %x", where, w.Code, w.Body.Bytes(), wantBody))
+			continue
 		}
 		// response headers with their full values
 		res := w.Result()
@@ -773,26 +750,29 @@ func run(c Case, report func(*core.Violation)) {
 				} else if len(vals) > 0 {
 					sig = "resp-header|value-altered"
 				}
-				return core.V(sig, "%s: configured response header %q arrived as %q", where, rh, vals)
+				report(core.V(sig, "%s: configured response header %q arrived as %q", where, rh, vals))
+				continue
 			}
 		}
 		// sender address
 		if s.Info == nil {
-			return core.V("admit|no-info", "%s: session without Info", where)
+			report(core.V("admit|no-info", "%s: session without Info", where))
+			continue
 		}
 		if c.Cfg.BehindRedir {
 			if r.XFF != "" && s.Info.ExternalIP != r.XFF {
-				return core.V("external-ip|behind-redirector|not-forwarded-for", "%s: ExternalIP %q, X-Forwarded-For %q", where, s.Info.ExternalIP, r.XFF)
+				report(core.V("external-ip|behind-redirector|not-forwarded-for", "%s: ExternalIP %q, X-Forwarded-For %q", where, s.Info.ExternalIP, r.XFF))
+				continue
 			}
 		} else if s.Info.ExternalIP != peerIP(r.Peer) {
 			sig := "external-ip|" + peerKind(r.Peer)
 			if r.XFF != "" && s.Info.ExternalIP == r.XFF {
 				sig = "external-ip|forwarded-for-trusted-without-redirector"
 			}
-			return core.V(sig, "%s: ExternalIP %q, peer address %q", where, s.Info.ExternalIP, peerIP(r.Peer))
+			report(core.V(sig, "%s: ExternalIP %q, peer address %q", where, s.Info.ExternalIP, peerIP(r.Peer)))
+			continue
 		}
 	}
-	return nil
 }
 
 // ---------------------------------------------------------------------------- classification
